@@ -424,6 +424,148 @@ def c16_derived_type_declaration_does_not_shadow():
     return not wrong, dict(parsed_as_intrinsic=wrong)
 
 
+def c05_zero_in_column_6_is_not_a_continuation():
+    """D50 (fixed)"""
+    from fparser.common.sourceinfo import FortranFormat
+    r = _reader("      program p\n      integer i\n     0i = 1\n      end\n")
+    r.set_format(FortranFormat(False, False))
+    t = str(_parser()(r))
+    return "INTEGER :: i\n" in t and "i = 1" in t, dict(printed=t)
+
+
+def c13_directory_named_like_the_include_file():
+    """D51 (fixed)"""
+    import os, tempfile
+    with tempfile.TemporaryDirectory() as d:
+        os.mkdir(os.path.join(d, "a")); os.mkdir(os.path.join(d, "b")); os.mkdir(os.path.join(d, "a", "x.inc"))
+        open(os.path.join(d, "b", "x.inc"), "w").write("i = 7\n")
+        t = str(_parser()(_reader("program p\ninteger i\ninclude 'x.inc'\nend program p\n", include_dirs=[os.path.join(d, "a"), os.path.join(d, "b")])))
+    return "i = 7" in t and "INCLUDE" not in t, dict(printed=t)
+
+
+def c02_initialiser_after_parenthesised_char_length():
+    """D52 (fixed)"""
+    t = _printed("program p\ncharacter :: c*(n+1) = 'x'\nend program p\n")
+    return "= 'x'" in t, dict(printed=t)
+
+
+def _only_syntax_error_free(src, std="f2003"):
+    """the (valid) source parses"""
+    try:
+        str(_parser(std)(_reader(src)))
+        return True, dict(outcome="parsed")
+    except BaseException as e:  # noqa
+        return False, dict(outcome="%s: %s" % (type(e).__name__, str(e)[:100].replace("\n", " | ")))
+
+
+def c07_error_inside_include_file_is_located_at_the_include_line():
+    """D53"""
+    import os, tempfile
+    from fparser.two.utils import FortranSyntaxError
+    with tempfile.TemporaryDirectory() as d:
+        open(os.path.join(d, "bad.inc"), "w").write("i = 1\n@@ garbage\n")
+        try:
+            _parser()(_reader("program p\ninteger i\ninclude 'bad.inc'\ni = 2\nend program p\n", include_dirs=[d]))
+            return False, dict(outcome="accepted")
+        except FortranSyntaxError as e:
+            return "@@ garbage" in str(e), dict(message=str(e)[:120])
+
+
+def c13_include_file_with_lines_starting_with_c_is_read_as_comments():
+    """D10b"""
+    import os, tempfile
+    with tempfile.TemporaryDirectory() as d:
+        open(os.path.join(d, "c.inc"), "w").write("call foo(i)\ncall bar(i)\n")
+        t = str(_parser()(_reader("program p\ninteger i\ninclude 'c.inc'\ni = 1\nend program p\n", include_dirs=[d])))
+    return "CALL foo(i)" in t, dict(printed=t)
+
+
+def c14_include_with_angle_brackets_is_reprinted_with_quotes():
+    """D54"""
+    t = _printed("program p\n#include <foo.h>\nx = 1\nend program p\n")
+    return "<foo.h>" in t, dict(printed=t)
+
+
+def c14_comment_after_ifdef_is_rejected():
+    """D55"""
+    return _only_syntax_error_free("program p\n#ifdef X /* c */\nx = 1\n#endif\nend program p\n")
+
+
+def c14_directive_between_components_splits_the_component_part():
+    """D56"""
+    from fparser.two import Fortran2003 as F
+    from fparser.two.utils import walk
+    t = _parser()(_reader("module m\n type t\n  integer :: a\n#ifdef X\n  integer :: b\n#endif\n end type t\nend module m\n"))
+    n = len(walk(t, F.Component_Part))
+    return n == 1, dict(component_parts=n)
+
+
+def c01_p_edit_descriptor_without_comma_changes_tree_on_reparse():
+    """D57"""
+    t = _parser()(_reader("program p\n10 format(1pe12.4)\nend program p\n"))
+    t2 = _parser()(_reader(str(t) + "\n"))
+    return repr(t) == repr(t2), dict(printed=str(t))
+
+
+def c03_identifier_ending_in_digit_e_is_taken_for_an_exponent():
+    """D58"""
+    return _only_syntax_error_free("program p\nx = a*2e-3 + n2e-3\nend program p\n")
+
+
+def c02_tab_inside_character_literal_is_expanded():
+    """D59"""
+    t = _printed("program p\ns = 'a\tb'\nend program p\n")
+    return "'a\tb'" in t, dict(printed=t)
+
+
+def c02_statement_after_leading_semicolon_is_lost():
+    """D60"""
+    t = _printed("program p\nx = 1\n; a = 1\nb = 2\nend program p\n", "f2008")
+    return "a = 1" in t, dict(printed=t)
+
+
+def c04_continuation_between_construct_name_and_colon():
+    """D61"""
+    a = _only_syntax_error_free("program p\nouter &\n  : do i = 1, 3\nend do outer\nend program p\n")
+    b = _only_syntax_error_free("program p\ninteger :&\n      &: i, total\nend program p\n")
+    return a[0] and b[0], dict(name_colon=a[1], double_colon=b[1])
+
+
+def c05_blanks_at_the_end_of_a_continued_fixed_form_literal_are_lost():
+    """D62"""
+    from fparser.common.sourceinfo import FortranFormat
+    r = _reader("      program p\n      s = 'abc   \n     &def'\n      end\n")
+    r.set_format(FortranFormat(False, False))
+    t = str(_parser()(r))
+    return "'abc   def'" in t, dict(printed=t)
+
+
+def c11_inline_directive_after_a_literal_becomes_a_directive_node():
+    """D63"""
+    from fparser.two import Fortran2003 as F
+    from fparser.two.utils import walk
+    a = _parser()(_reader("program p\ns = 'a' !$omp foo\nend program p\n", ignore_comments=False, process_directives=True))
+    b = _parser()(_reader("program p\ns = 1 !$omp foo\nend program p\n", ignore_comments=False, process_directives=True))
+    ka = [type(n).__name__ for n in walk(a, (F.Comment, F.Directive))]
+    kb = [type(n).__name__ for n in walk(b, (F.Comment, F.Directive))]
+    return ka == kb, dict(after_literal=ka, after_number=kb)
+
+
+def c09_system_exit_leaves_the_scope_open():
+    """D4e"""
+    from fparser.two.symbol_table import SYMBOL_TABLES
+    p = _parser()
+    before = _tables_state()
+    try:
+        p(_reader("module m\ncontains\nsubroutine s()\nend subroutine t\nend module m\n"))
+        outcome = "accepted"
+    except BaseException as e:  # noqa
+        outcome = type(e).__name__
+    after = _tables_state()
+    SYMBOL_TABLES.clear()
+    return after == before, dict(outcome=outcome, before=before, after=after)
+
+
 def c14_directive_backslash_at_eof():
     """D9: a directive whose last line ends in a backslash at end of input is lost"""
     r = _reader("x = 1\n#define X \\\n")
